@@ -297,6 +297,7 @@ pub struct Counters {
     pub reads: u64,
     pub within_ok: u64,
     pub within_err: u64,
+    pub derived_iter_checks: u64,
     pub known_findings: BTreeMap<String, u64>,
 }
 
@@ -328,6 +329,7 @@ impl Counters {
         self.reads += o.reads;
         self.within_ok += o.within_ok;
         self.within_err += o.within_err;
+        self.derived_iter_checks += o.derived_iter_checks;
         for (k, v) in &o.known_findings {
             *self.known_findings.entry(k.clone()).or_insert(0) += v;
         }
